@@ -121,6 +121,12 @@ def await_future(E, f):
             raise Unsupported('await on pending future without suspend hook')
         hook(E, ('future', f))
         if a['state'] == 'pending':
+            # nobody completes this future on this path: the coroutine hangs here for ever.  Unless the contract says that
+            # this is where its observation ends (E.allow_hang), a hang is a failed obligation - never a silently dropped path
+            if not getattr(E, 'allow_hang', False):
+                E.results.append(ENG.ObligationResult('terminates[awaits a future / task that is never completed or cancelled: %s]'
+                                                      % a.get('label', 'future'), 'refuted', ';'.join(E.path.sig), 0.0,
+                                                      reason='the awaited future stays pending for ever on this path'))
             raise PathEnd('awaiting a future that never completes')
     if a['state'] == 'result':
         return a['value']
